@@ -4,6 +4,8 @@ import (
 	"context"
 	"errors"
 	"sync/atomic"
+
+	"github.com/klev-dev/klevdb/pkg/verifhook"
 )
 
 var ErrOffsetNotifyClosed = errors.New("offset notify already closed")
@@ -36,12 +38,15 @@ func (w *Offset) Wait(ctx context.Context, offset int64) error {
 		// already closed, return error
 		return ErrOffsetNotifyClosed
 	}
+	verifhook.Pause("wait.token")
 
 	// probe the current offset
 	updated := w.nextOffset.Load() > offset
+	verifhook.Pause("wait.probed")
 
 	// release current barrier
 	w.barrier <- b
+	verifhook.Pause("wait.released")
 
 	// already has a new value, return
 	if updated {
@@ -64,14 +69,17 @@ func (w *Offset) Set(nextOffset int64) {
 		// already closed
 		return
 	}
+	verifhook.Pause("set.token")
 
 	// set the new offset
 	if w.nextOffset.Load() < nextOffset {
 		w.nextOffset.Store(nextOffset)
 	}
+	verifhook.Pause("set.stored")
 
 	// close the current barrier, e.g. broadcasting update
 	close(b)
+	verifhook.Pause("set.closed")
 
 	// create new barrier
 	w.barrier <- make(chan struct{})
@@ -84,9 +92,11 @@ func (w *Offset) Close() error {
 		// already closed, return an error
 		return ErrOffsetNotifyClosed
 	}
+	verifhook.Pause("close.token")
 
 	// close the current barrier, e.g. broadcasting update
 	close(b)
+	verifhook.Pause("close.closed-b")
 
 	// close the barrier channel, completing process
 	close(w.barrier)
